@@ -508,10 +508,11 @@ fn run_with_timeout(mut cmd: Command, secs: u64) -> Result<std::process::Output,
     }
 }
 
-fn check_cli(family: &'static str, index: u64, c: &Circ, rf: &Ref, cli: &str, dir: &str) {
+fn check_cli(family: &'static str, index: u64, c: &Circ, rf: &Ref, cli: &str, dir: &str, text: Option<String>) {
     let cx = ctx();
     let path = format!("{dir}/c{index}.qasm");
-    if std::fs::write(&path, print_qasm(c)).is_err() {
+    let input_text = text.unwrap_or_else(|| print_qasm(c));
+    if std::fs::write(&path, &input_text).is_err() {
         cx.harness_error("cannot write qasm temp file");
         return;
     }
@@ -532,7 +533,7 @@ fn check_cli(family: &'static str, index: u64, c: &Circ, rf: &Ref, cli: &str, di
             cmd.arg("-o").arg(&outp);
         }
         cx.count(&format!("cli:opt{}{}", if method.is_empty() { ":default" } else { method }, if use_out { ":-o" } else { "" }), 1);
-        let detail = |what: &str, extra: serde_json::Value| json!({"what": what, "method": method, "with_o": use_out, "circuit": circ_json(c), "qasm": print_qasm(c), "extra": extra});
+        let detail = |what: &str, extra: serde_json::Value| json!({"what": what, "method": method, "with_o": use_out, "circuit": circ_json(c), "qasm": input_text, "extra": extra});
         let out = match run_with_timeout(cmd, 120) {
             Ok(o) => o,
             Err(e) => {
@@ -716,8 +717,26 @@ pub fn run() {
                 }
                 ctx().count("cli-opt:with-phase-denominators-above-4096", 1);
             }
+            // half of the inputs in another spelling of the same circuit: several registers,
+            // unused classical registers, built-in CX, `pi*k/d`, comment lines
+            let text = if i % 12 == 5 {
+                // programs without any gate statement (their qubit count comes from the
+                // declarations alone), with and without classical registers
+                circ.gates.clear();
+                ctx().count("cli-opt:zero-gate-program", 1);
+                let mut t = format!("OPENQASM 2.0;\ninclude \"qelib1.inc\";\nqreg q[{}];\n", circ.n);
+                if r.chance(0.7) {
+                    t += &format!("creg c[{}];\n", *r.pick(&[1usize, circ.n, circ.n + 2]));
+                }
+                Some(t)
+            } else if r.chance(0.5) {
+                ctx().count("cli-opt:input-in-a-variant-spelling", 1);
+                Some(print_qasm_variants_opt(&circ, r, false).0)
+            } else {
+                None
+            };
             let rf = reference(&circ);
-            check_cli("cli-opt", i, &circ, &rf, &cli, &dir);
+            check_cli("cli-opt", i, &circ, &rf, &cli, &dir, text);
             let cx = ctx();
             cx.case("cli-opt", if circ.gates.len() >= 2 { Some(circ_hash(&circ) ^ 0xC11) } else { None });
             cx.evals(3);
